@@ -211,6 +211,7 @@ class Monitor:
     def begin(self, case, simname, ref_final_probs):
         self.case, self.simname, self.snaps, self.ref_final, self.active = case, simname, [], ref_final_probs, True
         self.harness_error = None
+        self.flagged = set()
 
     def end(self):
         self.active = False
@@ -249,6 +250,13 @@ class Monitor:
         self.snaps.append((name, snap))
         self._invariants(name, step, snap, prev, tol, isinstance(instruction, self.Gate))
 
+    def _first(self, mech, msg, case):
+        """State invariants: report the first instruction after which one fails (later states inherit it)."""
+        key = mech.split(":")[2]
+        if key not in self.flagged:
+            self.flagged.add(key)
+            self.ctx.viol(mech, msg, case)
+
     # -- invariants (c)
     def _invariants(self, gate, step, snap, prev, tol, is_gate):
         ctx, case, sim = self.ctx, self.case, self.simname
@@ -258,16 +266,16 @@ class Monitor:
         probs = snap["probs"]
         vals = np.array(list(probs.values()))
         if not np.all(np.isfinite(vals)):
-            ctx.viol("%s:%s:probability-not-finite" % (sim, gate), "%s: a detection probability is nan/inf" % where, case)
+            self._first("%s:%s:probability-not-finite" % (sim, gate), "%s: a detection probability is nan/inf" % where, case)
             return
         if ctx.dev(np.abs(vals.imag).max(), tol) or ctx.dev(max(0.0, -vals.real.min(), vals.real.max() - 1), tol):
-            ctx.viol("%s:%s:probability-outside-unit-interval" % (sim, gate),
+            self._first("%s:%s:probability-outside-unit-interval" % (sim, gate),
                      "%s: detection probabilities range over [%r, %r], max |imag| %.3g (tol %.2g)" % (
-                         where, vals.real.min(), vals.real.max(), np.abs(vals.imag).max(), tol), case)
-        total = vals.real.sum()
+                         where, float(vals.real.min()), float(vals.real.max()), np.abs(vals.imag).max(), tol), case)
+        total = float(vals.real.sum())
         ctx.c["prob_comparisons"] += len(vals)
         if ctx.dev(abs(total - 1), tol * 2 ** d):
-            ctx.viol("%s:%s:probabilities-do-not-sum-to-one" % (sim, gate),
+            self._first("%s:%s:probabilities-do-not-sum-to-one" % (sim, gate),
                      "%s: the probabilities of all 0/1 occupations sum to %r (tol %.2g)" % (where, total, tol * 2 ** d), case)
         if sim == "fock":
             ctx.c["occupation_key_checks"] += 1
@@ -277,18 +285,18 @@ class Monitor:
 
             expected = sum(math.comb(d, n) for n in range(min(snap["cutoff"], d + 1)))
             if bad or len(set(keys)) != len(keys) or len(keys) != expected:
-                ctx.viol("fock:%s:occupation-keys-not-01" % gate,
+                self._first("fock:%s:occupation-keys-not-01" % gate,
                          "%s: fock_probabilities_map has %d keys (%d distinct, expected %d), non-0/1 keys: %s" % (
                              where, len(keys), len(set(keys)), expected, bad[:4]), case)
             mvals = np.array(list(snap["map"].values()))
             if ctx.dev(abs(mvals.real.sum() - 1), tol * 2 ** d) or ctx.dev(np.abs(mvals.imag).max(), tol) or \
                     ctx.dev(max(0.0, -mvals.real.min(), mvals.real.max() - 1), tol):
-                ctx.viol("fock:%s:probability-map-not-a-distribution" % gate,
+                self._first("fock:%s:probability-map-not-a-distribution" % gate,
                          "%s: fock_probabilities_map sums to %r, range [%r, %r]" % (
-                             where, mvals.real.sum(), mvals.real.min(), mvals.real.max()), case)
+                             where, float(mvals.real.sum()), float(mvals.real.min()), float(mvals.real.max())), case)
             for o, p in probs.items():  # the two occupation-keyed interfaces of the same state
                 if o not in snap["map"] or ctx.dev(abs(p - snap["map"][o]), tol):
-                    ctx.viol("fock:%s:map-vs-detection-probability" % gate,
+                    self._first("fock:%s:map-vs-detection-probability" % gate,
                              "%s: get_particle_detection_probability(%s)=%r but fock_probabilities_map gives %r" % (
                                  where, o, p, snap["map"].get(o)), case)
                     break
@@ -297,28 +305,28 @@ class Monitor:
             ctx.c["spectrum_checks"] += 1
             cov = snap["cov"]
             if np.iscomplexobj(cov) or not np.all(np.isfinite(cov)) or cov.shape != (2 * d, 2 * d):
-                ctx.viol("%s:%s:covariance-not-real" % (sim, gate), "%s: covariance matrix dtype %s shape %s" % (where, cov.dtype, cov.shape), case)
+                self._first("%s:%s:covariance-not-real" % (sim, gate), "%s: covariance matrix dtype %s shape %s" % (where, cov.dtype, cov.shape), case)
             else:
                 if ctx.dev(np.abs(cov + cov.T).max(), tol):
-                    ctx.viol("%s:%s:covariance-not-skew" % (sim, gate), "%s: |cov + cov^T| = %.3g" % (where, np.abs(cov + cov.T).max()), case)
+                    self._first("%s:%s:covariance-not-skew" % (sim, gate), "%s: |cov + cov^T| = %.3g" % (where, np.abs(cov + cov.T).max()), case)
                 smax = np.linalg.svd(cov, compute_uv=False).max()
                 if ctx.dev(max(0.0, smax - 1), tol):
-                    ctx.viol("%s:%s:correlation-spectrum-outside-unit-interval" % (sim, gate),
+                    self._first("%s:%s:correlation-spectrum-outside-unit-interval" % (sim, gate),
                              "%s: largest singular value of the covariance matrix is 1 + %.3g (spectrum of (1 + i cov)/2 leaves [0,1])" % (where, smax - 1), case)
         if "corr" in snap:
             G = snap["corr"]
             if ctx.dev(np.abs(G - G.conj().T).max(), tol):
-                ctx.viol("gaussian:%s:correlation-not-selfadjoint" % gate, "%s: |Gamma - Gamma^+| = %.3g" % (where, np.abs(G - G.conj().T).max()), case)
+                self._first("gaussian:%s:correlation-not-selfadjoint" % gate, "%s: |Gamma - Gamma^+| = %.3g" % (where, np.abs(G - G.conj().T).max()), case)
             else:
                 w = np.linalg.eigvalsh((G + G.conj().T) / 2)
                 if ctx.dev(max(0.0, -w.min(), w.max() - 1), tol):
-                    ctx.viol("gaussian:%s:correlation-spectrum-outside-unit-interval" % gate,
-                             "%s: correlation matrix eigenvalues range over [%r, %r]" % (where, w.min(), w.max()), case)
+                    self._first("gaussian:%s:correlation-spectrum-outside-unit-interval" % gate,
+                             "%s: correlation matrix eigenvalues range over [%r, %r]" % (where, float(w.min()), float(w.max())), case)
         # conservation between consecutive observations
         if is_gate and prev is not None:
             nd_post = number_distribution(probs, d)
             nd_pre = number_distribution(prev["probs"], d)
-            even_post, even_pre = nd_post[0::2].sum(), nd_pre[0::2].sum()
+            even_post, even_pre = float(nd_post[0::2].sum()), float(nd_pre[0::2].sum())
             ctx.c["parity_checks"] += 1
             if ctx.dev(abs(even_post - even_pre), tol * 2 ** d):
                 ctx.viol("%s:%s:parity-not-conserved" % (sim, gate),
@@ -436,8 +444,11 @@ def run_case(pq, ctx, mon, case):
     reported = set()
 
     def report(mech, msg):
-        if mech not in reported:
-            reported.add(mech)
+        # only the first step at which a comparison fails is reported: later steps inherit the error
+        parts = mech.split(":")
+        key = (parts[0], parts[2])
+        if key not in reported:
+            reported.add(key)
             ctx.viol(mech, msg, case)
 
     for k in range(len(names)):
@@ -467,7 +478,7 @@ def run_case(pq, ctx, mon, case):
                 worst = max(keys, key=lambda o: abs(s["probs"][o] - r["probs"][o]))
                 report("%s:%s:probabilities-differ-from-reference" % (simname, gate),
                        "%s occupation probabilities %s differ from the reference by %.3g (tol %.2g), e.g. p%s=%r vs %r" % (
-                           simname, where, dv, tol, worst, s["probs"][worst].real, r["probs"][worst]))
+                           simname, where, dv, tol, worst, float(s["probs"][worst].real), r["probs"][worst]))
             if "map" in s:
                 dv = max(abs(v - r["probs"][o]) for o, v in s["map"].items() if o in r["probs"])
                 if ctx.dev(dv, tol):
@@ -675,7 +686,7 @@ def plan(tier, seed):
     if tier == "quick":
         layout = [("diff", 6, 150), ("cut", 2, 120), ("gauss", 4, 120)]
     else:
-        layout = [("diff", 10, 1400), ("cut", 4, 1000), ("gauss", 6, 1200)]
+        layout = [("diff", 10, 1000), ("cut", 4, 800), ("gauss", 6, 1000)]
     specs, sh = [], 0
     for kind, n, count in layout:
         for i in range(n):
